@@ -224,8 +224,7 @@ let ref_op (x : obj) (c : cur) (ret : string option) : refres =
   | "difference_assign" -> let y = arg () in { rdim = n; pieces = diff_pieces xs y.gamma; claim = Best; within_pre = true }
   | "simplify_using_context_assign" ->
       (* meet-preserving simplification: result /\ y = x /\ y; in particular the result contains x /\ y *)
-      let y = arg () in
-      if ret = Some "1" then { (same (union_sys xs y.gamma)) with claim = Sound } else raise (Skip "simplify answered false")
+      let y = arg () in { (same (union_sys xs y.gamma)) with claim = Sound }
   | "concatenate_assign" -> let y = arg () in { (same (concatenate (nat n) xs y.gamma)) with rdim = n + y.dim }
   | "topological_closure_assign" -> same (relax xs)
   | "closure" | "reduction" | "obs_constraints" | "obs_minimized_constraints" | "obs_is_empty" -> same xs
@@ -496,7 +495,36 @@ let rec ref_query line (x : obj) (c : cur) (ans : string list) =
       (* only equalities (modulus 0) are judged: relation with the corresponding equality constraint *)
       (match c.t with
        | m :: rest when m = "0" -> ref_query line x { t = "relation_with_con" :: "=" :: rest } ans
-       | _ -> raise (Skip "proper congruence"))
+       | _ ->
+         (* proper congruence  e = 0 (mod m): the values of e on the (convex) set form an interval [lo, hi] given by the
+            verified infimum / supremum; the hyperplanes e = k*m meeting the set are those with k*m in that interval *)
+         let (m, e) = read_cg c n in
+         let m = Z.abs m in
+         tags := !tags ^ " cg_modulus=" ^ string_of_z m;
+         let nn = nat (max n (max (sys_dim xs) (List.length e.lcoefs))) in
+         let fl (q : q) = Z.div q.qnum (Z.mul (Zpos q.qden) m) in                       (* floor (q / m) *)
+         let ce (q : q) = Z.opp (Z.div (Z.opp q.qnum) (Z.mul (Zpos q.qden) m)) in       (* ceiling (q / m) *)
+         let is_mult (q : q) (k : z) = Z.eqb q.qnum (Z.mul (Z.mul k m) (Zpos q.qden)) in
+         let expected =
+           (match timed (fun () -> Some (q_minimize nn e xs, q_maximize nn e xs)) None with
+            | Some (Some SupEmpty, _) | Some (_, Some SupEmpty) -> Some (true, true, false)
+            | Some (Some SupUnbounded, Some _) | Some (Some _, Some SupUnbounded) -> Some (false, false, true)
+            | Some (Some (SupVal (lo, la)), Some (SupVal (hi, ha))) ->
+                let kmin = ce lo and kmax = fl hi in
+                let kmin = if (not la) && is_mult lo kmin then Z.add kmin (z_of_int 1) else kmin in
+                let kmax = if (not ha) && is_mult hi kmax then Z.sub kmax (z_of_int 1) else kmax in
+                let disj = Z.ltb kmax kmin in
+                let incl_ = (not disj) && la && ha && qeq_bool lo hi && is_mult lo kmin in
+                Some (disj, incl_, (not disj) && not incl_)
+            | _ -> None) in
+         (match ans, expected with
+          | [ "ans"; "rel"; d; i; _; si ], Some (ed, ei, esi) ->
+              let one name (v : string) (e : bool) =
+                if b01 v && name <> "strictly_intersects" then rep ("C03:relation_with_cg/" ^ name) line (if e then Ok else Fail (name ^ " reported but false"));
+                if exact then rep ("C04:relation_with_cg/" ^ name) line (if e = b01 v then Ok else Fail (Printf.sprintf "%s: implementation %s, reference %b" name v e)) in
+              one "is_disjoint" d ed; one "is_included" i ei; one "strictly_intersects" si esi
+          | [ "ans"; "rel"; _; _; _; _ ], None -> rep "C03:relation_with_cg" line Undecided
+          | _ -> raise (Syntax "expected ans rel")))
   | "relation_with_con" ->
       let k = read_con c n in
       tags := !tags ^ Printf.sprintf " con_vars=%d con_kind=%s" (List.length (List.filter (fun a -> a <> Z0) k.ccoefs)) (match k.ckd with EQ -> "eq" | GE -> "ge" | GT -> "gt");
@@ -739,9 +767,13 @@ let () =
                      if name = "simplify_using_context_assign" then begin
                        let y = get (int_of_string (List.hd rest)) in
                        let meet_pre = union_sys pre.gamma y.gamma and meet_post = union_sys post.gamma y.gamma in
-                       (* the returned flag is not judged (the code also answers false when x contains y);
-                          when it answers true the simplification must be meet-preserving *)
-                       if !prop = "C04" && exact_car post && !ret = Some "1" then
+                       (* documented: the result is a meet-preserving simplification; if false is returned the intersection is empty *)
+                       tags := !tags ^ Printf.sprintf " recv_contains_arg=%s ret=%s" (ob2s (incl y.gamma pre.gamma)) (match !ret with Some v -> v | None -> "?");
+                       rep "C03:simplify_using_context_assign/meet-contained" line (of_ob true "result /\\ context lost points of receiver /\\ context" (incl meet_pre meet_post));
+                       (match !ret with
+                        | Some "0" -> rep "C03:simplify_using_context_assign/false-means-disjoint" line (of_ob false "answered false but the intersection with the context is not empty" (nonempty meet_pre))
+                        | _ -> ());
+                       if !prop = "C04" && exact_car post then
                          rep "C04:simplify_using_context_assign/meet-preserving" line (of_ob true "result /\\ context differs from receiver /\\ context" (equiv meet_post meet_pre))
                      end;
                      if name = "upper_bound_assign_if_exact" then begin
